@@ -46,6 +46,12 @@ FS_EPOCH = "VERIF_FS_EPOCH"      # bumped by the harness with every file-system 
 TOOLFILES = ["@D1@/tool", "@D2@/tool"]      # the programs that fs operations remove / restore / chmod
 WORDS = ["a", "-n", "x y", "", "lit", "b", "--flag=1", "$V", "${V}", "${V}x", "$V$W", "pre$V", "$V/$W", "$W", "$X",
          "${Y}", "$Z", "$V", "$W.txt", "k=$X"]
+SHELL_WORDS = ["*", "*.txt", "?", "v?", "[a-z]*", "[ab].txt", "{a,b}", "{a,b}.txt", "~", "~/x", "`echo hi`", "$(echo hi)", ";", "a;b", "|", ">", "> out",
+               "&", "&&", "'q'", '"dq"', "a\\b", "\\", "-rf", "--", "k=v", "=", "*$V", "$V*", "?$W", "\\$V", "#", "!", "a b*", "*/*", "./*"]
+WORDS = WORDS + SHELL_WORDS[::2]          # half of them in the general alphabet, all of them in dedicated arrays
+# plain files of the working directories: names such patterns would match, names like the words themselves
+STD_FILES = ["a.txt", "b.txt", "v1", "-rf", "k=v", "[a-z]x", "x y", "{a,b}"]
+EXTRA_FILES = ["c.txt", "v2", "*", "*.txt", "~", "lit", "out", "a;b"]
 FNS = ["Run", "RunV", "RunWith", "RunWithV", "Output", "OutputWith", "Exec"]
 USES_MAP = {"RunWith", "RunWithV", "OutputWith", "Exec"}
 FNSEL = {"Run": "FRun", "RunV": "FRunV", "RunWith": "FRunWith", "RunWithV": "FRunWithV", "Output": "FOutput",
@@ -116,7 +122,8 @@ def gen_arrays(rng, scripts=False):
     for _ in range(rng.choice([1, 2, 2, 3, 3, 4, 5])):
         # lengths 0..41: short lists mostly, a quarter beyond any plausible cut-off (15..18, 31..34, 40, 41)
         n = rng.choice([0, 1, 2, 2, 3, 3, 4, 5, 6, 6, 9, 12]) if rng.random() < 0.75 else rng.choice([15, 16, 17, 17, 18, 20, 24, 31, 32, 33, 34, 40, 41])
-        words = PLAIN if rng.random() < 0.4 else WORDS      # arrays without any $ reference are frequent
+        r0 = rng.random()
+        words = PLAIN if r0 < 0.35 else (SHELL_WORDS if r0 < 0.5 else WORDS)      # arrays without any $ reference are frequent
         # how often a cell scripts the child: failing calls must be as frequent as succeeding ones, for every length
         dens = rng.choice([0.0, 0.15, 0.3]) if n <= 12 else rng.choice([0.0, 0.03, 0.06, 0.1])
         arrays.append([rng.choice(SCRIPTS) if scripts and rng.random() < dens else rng.choice(words) for _ in range(n)])
@@ -156,7 +163,7 @@ def gen_cmd_history(rng):
     kind = rng.choice(["run", "out", "out"])
     baked = dict(NILS) if rng.random() < 0.3 else gen_slice(rng, arrays, want_spare=rng.random() < 0.5)
     ops = [{"op": "mk", "kind": kind, "cmd": cmd, "baked": baked}]
-    fs = {f: {"present": True, "exec": True} for f in TOOLFILES}
+    fs = new_fs("@D1@/tool", "@D2@/tool", "@D1@")
     relevant = {"$TOOLDIR/tool": ["TOOLDIR"], "${TOOLDIR}/$TOOL": ["TOOLDIR", "TOOL"], "$WHOLE": ["WHOLE"],
                 "tool": ["PATH"], "$TOOL": ["PATH", "PATH", "TOOL"],
                 # for the relative spellings PATH is a control: it must NOT matter
@@ -173,12 +180,7 @@ def gen_cmd_history(rng):
             k = rng.choice(relevant)
             ops.append({"op": "setenv", "k": k, "v": rng.choice(CMD_VARS[k])})
         elif r < 0.9:
-            f = rng.choice(TOOLFILES)
-            st = fs[f]
-            act = rng.choice([a for a, okay in (("remove", st["present"]), ("restore", not st["present"]),
-                                                ("chmod-x", st["present"] and st["exec"]), ("chmod+x", st["present"] and not st["exec"])) if okay])
-            fs_apply(fs, f, act)
-            ops.append({"op": "fs", "act": act, "path": f})
+            ops.append(gen_fs_op(rng, fs))
         else:
             ops.append({"op": "setenv", "k": rng.choice(VARS), "v": rng.choice(VALUES)})
     ops.append({"op": "call", "c": 0, "extra": dict(NILS)})
@@ -210,8 +212,42 @@ def gen_big_history(rng, nmax):
     return {"kind": "hist", "env": env, "arrays": arrays, "closures": [], "ops": ops, "big": True}
 
 
+def gen_glob_history(rng):
+    """arguments with every character a shell would treat specially, baked in and per call, through one closure again and
+    again and through the direct function, while the working directory changes and files that such patterns match appear and
+    vanish: every word must reach the program verbatim, the same for closure and direct call, whatever the directory holds"""
+    pool = SHELL_WORDS + ["$V", "lit"]
+    arrays = [[rng.choice(pool) for _ in range(rng.choice([2, 3, 4, 6]))], [rng.choice(pool) for _ in range(rng.choice([1, 2, 3]))]]
+    kind = rng.choice(["run", "out", "out"])
+    cmd = rng.choice(CMDS_ABS + ["./tool", "$TOOLDIR/tool"])
+    baked = {"nil": False, "id": 0, "off": 0, "len": rng.randint(1, len(arrays[0])), "cap": len(arrays[0])}
+    extra = {"nil": False, "id": 1, "off": 0, "len": len(arrays[1]), "cap": len(arrays[1])}
+    whole = {"nil": False, "id": 0, "off": 0, "len": len(arrays[0]), "cap": len(arrays[0])}
+    ops = [{"op": "mk", "kind": kind, "cmd": cmd, "baked": baked}]
+    fs = new_fs("@D1@/tool", "@D2@/tool", "@D1@")
+    for _ in range(rng.choice([2, 3, 4])):
+        ops.append({"op": "call", "c": 0, "extra": extra if rng.random() < 0.7 else dict(NILS)})
+        if rng.random() < 0.5:
+            ops.append({"op": "direct", "fn": "Output" if kind == "out" else "Run", "emap": None, "cmd": cmd, "args": whole})
+        r = rng.random()
+        if r < 0.45:
+            op = {"op": "fs", "act": "chdir", "path": rng.choice(["@D1@", "@D2@", "@D0@"])}
+        elif r < 0.9:
+            op = {"op": "fs", "act": rng.choice(["create", "delete"]), "path": fs["cwd"] + "/" + rng.choice(STD_FILES + EXTRA_FILES)}
+        else:
+            op = {"op": "setenv", "k": "V", "v": rng.choice(VALUES + ["*", "?"])}
+        if op["op"] == "fs":
+            fs_apply(fs, op["path"], op["act"])
+        ops.append(op)
+    ops.append({"op": "call", "c": 0, "extra": extra})
+    return {"kind": "hist", "env": gen_env(rng), "arrays": arrays, "closures": [], "ops": ops}
+
+
 def gen_history(rng):
-    if rng.random() < 0.3:
+    r = rng.random()
+    if r < 0.12:
+        return gen_glob_history(rng)
+    if r < 0.40:
         return gen_cmd_history(rng)
     arrays = gen_arrays(rng, scripts=True)
     cls = gen_closures(rng, arrays)
@@ -219,7 +255,7 @@ def gen_history(rng):
     rng.shuffle(mk)
     ops = [mk.pop()]                      # closures are made at any point of the history, under the environment of that moment
     made = 1
-    fs = {f: {"present": True, "exec": True} for f in TOOLFILES}
+    fs = new_fs("@D1@/tool", "@D2@/tool", "@D1@")
     for _ in range(rng.choice([1, 2, 3, 3, 4, 4, 5, 6, 8, 10])):
         r = rng.random()
         if mk and r < 0.25:
@@ -232,13 +268,8 @@ def gen_history(rng):
         elif r < 0.30:
             k = rng.choice(["PATH", "PATH", "TOOLDIR", "TOOLDIR", "TOOL", "WHOLE"])     # which program the command word names changes
             ops.append({"op": "setenv", "k": k, "v": rng.choice(CMD_VARS[k])})
-        elif r < 0.36:
-            f = rng.choice(TOOLFILES)                # the program is removed / put back / made non-executable / executable again
-            st = fs[f]
-            act = rng.choice([a for a, okay in (("remove", st["present"]), ("restore", not st["present"]),
-                                                ("chmod-x", st["present"] and st["exec"]), ("chmod+x", st["present"] and not st["exec"])) if okay])
-            fs_apply(fs, f, act)
-            ops.append({"op": "fs", "act": act, "path": f})
+        elif r < 0.40:
+            ops.append(gen_fs_op(rng, fs))
         elif r < 0.70:
             c = rng.randrange(made)
             if ops and ops[-1]["op"] == "call" and rng.random() < 0.5:
@@ -368,7 +399,35 @@ def gen_par(rng, reps, alloc=False):
 
 
 # ------------------------------------------------------------------ running
+def new_fs(t1, t2, cwd):
+    """the oracle's record of the file system: the two programs that operations touch, and the working directory"""
+    return {t1: {"present": True, "exec": True}, t2: {"present": True, "exec": True}, "cwd": cwd}
+
+
+def gen_fs_op(rng, fs):
+    """a program is removed / put back / made non-executable / executable again; the working directory changes; plain files
+    (names that patterns would match, names like the words themselves) appear in or vanish from a directory"""
+    r = rng.random()
+    if r < 0.4:
+        f = rng.choice(TOOLFILES)
+        st = fs[f]
+        act = rng.choice([a for a, okay in (("remove", st["present"]), ("restore", not st["present"]),
+                                            ("chmod-x", st["present"] and st["exec"]), ("chmod+x", st["present"] and not st["exec"])) if okay])
+    elif r < 0.7:
+        f, act = rng.choice(["@D1@", "@D2@", "@D1@", "@D2@", "@D0@"]), "chdir"
+    else:
+        d = fs["cwd"] if rng.random() < 0.7 else rng.choice(["@D0@", "@D1@", "@D2@"])
+        f, act = d + "/" + rng.choice(STD_FILES + EXTRA_FILES), rng.choice(["create", "delete"])
+    fs_apply(fs, f, act)
+    return {"op": "fs", "act": act, "path": f}
+
+
 def fs_apply(fs, f, act):
+    if act == "chdir":
+        fs["cwd"] = f
+        return
+    if act in ("create", "delete"):
+        return                      # plain files: they name no program
     st = fs[f]
     if act == "remove":
         st["present"] = False
@@ -461,12 +520,21 @@ def setup_tools(child, dirs):
 
 
 def reset_tools(dirs):
-    """undo the file-system operations of the previous history (renames and modes only, nothing is written)"""
+    """undo the file-system operations of the previous history (programs: renames and modes only, nothing is written;
+    plain files: the standard ones are there, the others are not)"""
     for k, name in TOOLS:
         f = os.path.join(dirs[k], name)
         if os.path.exists(f + ".gone"):
             os.replace(f + ".gone", f)
         os.chmod(f, 0o755)
+    for d in dirs:
+        for name in STD_FILES:
+            if not os.path.exists(os.path.join(d, name)):
+                with open(os.path.join(d, name), "w") as fh:
+                    fh.write("x\n")
+        for name in EXTRA_FILES:
+            if os.path.exists(os.path.join(d, name)):
+                os.remove(os.path.join(d, name))
 
 
 def run_chunks(ctx, binp, child, cases, tag, jobs=None):
@@ -537,7 +605,7 @@ def child_behaviour(argv, exe):
 
 def which(case, env, fs, argv):
     """the program the command word names NOW: environment and file system of this moment"""
-    return lookpath(argv[0], env.get("PATH", ""), fs, case["_known"], cwd=case["_dirs"][1])
+    return lookpath(argv[0], env.get("PATH", ""), fs, case["_known"], cwd=fs.get("cwd", case["_dirs"][1]))
 
 
 def trim_nl(t):
@@ -640,7 +708,7 @@ def oracle(case, ans):
     if ans["snap0"] != arrays:
         bad.append("harness: initial arrays differ from the request")
     env = dict(case["env"])
-    fs = {f: {"present": True, "exec": True} for f in (case["_dirs"][1] + "/tool", case["_dirs"][2] + "/tool")}
+    fs = new_fs(case["_dirs"][1] + "/tool", case["_dirs"][2] + "/tool", case["_dirs"][1])
     for i, (o, ob) in enumerate(zip(case["ops"], ans["obs"])):
         if o["op"] == "setenv":
             env[o["k"]] = o["v"]
@@ -1023,11 +1091,11 @@ def run(ctx):
     byfn, cmdforms = {}, {}
     feat = {"call_without_extra": 0, "call_after_setenv": 0, "repeated_call_of_one_closure": 0, "baked_with_spare_capacity": 0,
             "extra_aliases_baked_array": 0, "offset_slices": 0, "closures_sharing_an_array": 0, "dollar_in_baked": 0, "env_map_overrides": 0,
-            "par_repetitions": 0, "env_maps_with_odd_entries": 0, "env_maps_refused_by_os_exec": 0, "failing_calls": 0, "output_family_call_after_failed_call_with_output": 0,
+            "par_repetitions": 0, "calls_with_shell_special_arguments": 0, "env_maps_with_odd_entries": 0, "env_maps_refused_by_os_exec": 0, "failing_calls": 0, "output_family_call_after_failed_call_with_output": 0,
             "runcmd_called_under_other_verbose_than_made": 0, "calls_not_started": 0,
             "closure_called_again_with_another_program_named": 0, "closure_started_then_not_or_vice_versa": 0, "calls_in_verbose_mode": 0, "verbose_direct_calls_without_dollar": 0, "concurrent_slow_expansion_cases": 0}
     par_baked, par_goroutines, par_targets, par_shapes = {}, {}, {}, {}
-    len_outcome, children = {}, {}
+    len_outcome, children, fsacts = {}, {}, {}
     overlap = {"repetitions": 0, "all_children_alive_together": 0, "max_wait_ms": 0}
     for c, a in zip(cases, answers):
         for ob in (a.get("obs") or []):
@@ -1047,6 +1115,10 @@ def run(ctx):
         failed_with_output = False
         for o, ob in zip(c["ops"], (a.get("obs") or [])):
             kinds[o["op"]] += 1
+            if o["op"] == "fs":
+                fsacts[o["act"]] = fsacts.get(o["act"], 0) + 1
+            if o["op"] in ("call", "direct") and ob.get("argv"):
+                feat["calls_with_shell_special_arguments"] += any(any(ch in x for ch in "*?[{~`;|>&'\"\\") for x in ob["argv"][0][1:])
             if o["op"] == "mk":
                 mk_verbose.append(verbose in TRUE_SPELLINGS)
             if o["op"] in ("call", "direct"):
@@ -1123,6 +1195,9 @@ def run(ctx):
                    "(RunCmd/OutCmd; the command word literal, $VAR for the directory / the program name / the whole path, or a bare name resolved through PATH - with "
                    "PATH, those variables and the programs themselves (removed, restored, chmod) changing between calls; baked slice of random offset/len/cap, often spare capacity, sometimes two closures on one array), "
                    "2-12 operations setenv (V..Y and MAGEFILE_VERBOSE in ParseBool spellings) | mk (closure creation at any point) | closure call (extra nil or any slice, may alias the baked array) | the seven direct functions with env maps; "
+                   "argument words include every character a shell would treat specially (* ? [a-z] {a,b} ~ backquotes $(..) ; | > & quotes backslashes leading - =); "
+                   "the WORKING DIRECTORY is part of the state: three directories populated with files such patterns match (a.txt, b.txt, v1, -rf, k=v, ...), "
+                   "chdir and creation/removal of such files between calls (12% of the histories are dedicated to this); "
                    "arrays of 0-41 cells (a quarter around and beyond 16/32); 40% of the arrays hold no $ reference at all; 0-20% of the cells of an array script the child "
                    "(--exit=N: print then fail, --kill: print then die by SIGKILL, --quiet); the number of children started by a call is the length of its argv list; "
                    "observed per call: argv, text handed back, bytes on os.Stdout (fresh file per call), exit status, all arrays, env map; "
@@ -1140,6 +1215,7 @@ def run(ctx):
     cov["concurrent_baked_counts"] = {str(k): v for k, v in sorted(par_baked.items())}
     cov["calls_by_length_and_outcome"] = len_outcome
     cov["children_started_per_call"] = children
+    cov["file_system_operations"] = fsacts
     cov["concurrent_targets"] = par_targets
     cov["concurrent_shapes"] = par_shapes
     cov["concurrent_overlap"] = overlap
